@@ -1144,3 +1144,37 @@ Proof.
     replace limit with (Z.of_nat n) by (unfold n; lia).
     rewrite (cutoff_drops n (n + 1) 1); [discriminate|lia|lia|lia|cbn; lia|intros c []].
 Qed.
+
+(* ------------------------------------------------------------------ the checkable form implies the hypotheses of levels_nest *)
+Lemma ids_distinct_sound l : ids_distinct l = true -> NoDup l.
+Proof.
+  induction l as [|x l IH]; intros H; [constructor|]. cbn [ids_distinct] in H.
+  apply andb_true_iff in H. destruct H as [H1 H2]. constructor; [|apply IH; exact H2].
+  intros Hin. apply negb_true_iff in H1.
+  assert (existsb (N.eqb x) l = true) by (apply existsb_exists; exists x; split; [exact Hin|apply N.eqb_refl]). congruence.
+Qed.
+
+Lemma tree_regular_good t : tree_regular (m_nodes t) = true -> tree_good t /\ root_total t < two63.
+Proof.
+  unfold tree_regular. intros H.
+  apply andb_true_iff in H. destruct H as [H Hlt]. apply andb_true_iff in H. destruct H as [H Hall].
+  apply andb_true_iff in H. destruct H as [Hkeys _]. apply ids_distinct_sound in Hkeys.
+  apply Z.ltb_lt in Hlt. rewrite (rchild_tot_children _ _ Hkeys) in Hlt.
+  split; [|exact Hlt].
+  intros p c Hc. destruct (children_in _ _ _ Hc) as (e & He & Hce).
+  rewrite forallb_forall in Hall.
+  assert (Hin : In {| r_parent := fst e; r_fn := t_fn c; r_id := t_id c; r_self := t_self c; r_total := t_total c |}
+                   (rows_of (m_nodes t))).
+  { unfold rows_of. apply in_flat_map. exists e. split; [exact He|]. apply in_map_iff. exists c. split; [reflexivity|exact Hce]. }
+  specialize (Hall _ Hin). cbn [r_id r_self r_total r_parent] in Hall.
+  apply andb_true_iff in Hall. destruct Hall as [Hall _]. apply andb_true_iff in Hall. destruct Hall as [Hall Hcons].
+  apply andb_true_iff in Hall. destruct Hall as [Hall Htot]. apply andb_true_iff in Hall. destruct Hall as [_ Hself].
+  apply Z.leb_le in Hself. apply Z.leb_le in Htot. apply Z.eqb_eq in Hcons.
+  rewrite (rchild_tot_children _ _ Hkeys) in Hcons. unfold good. tauto.
+Qed.
+
+(* every tree accepted by tree_regular (the precondition the check evaluates on OBSERVED merged trees before it
+   applies the nesting oracle) satisfies the conclusion of levels_nest *)
+Corollary levels_nest_regular t : tree_regular (m_nodes t) = true ->
+  exists ls, bfs t = [root_bar (root_total t)] :: ls /\ nest_levels [root_bar (root_total t)] ls.
+Proof. intros H. destruct (tree_regular_good t H) as [Hg Hlt]. exact (levels_nest_proof t Hg Hlt). Qed.
